@@ -160,7 +160,7 @@ def _init(src):
 def replay(run, behs, kinds, seed, limit=None):
     behs = [b for b in behs if b["indom"]]
     if limit and len(behs) > limit:
-        behs = random.Random(seed).sample(behs, limit)
+        behs = lib.covering_sample(behs, lambda b: dict({o: json.dumps(v, sort_keys=True) for o, v in b["asg"].items()}, rtc=b["rtc"]), limit, seed)
         run.exhaustive = False
     base = tempfile.mkdtemp(prefix="verif_c16_", dir="/dev/shm" if os.path.isdir("/dev/shm") else None)
     try:
